@@ -102,7 +102,7 @@ func c10BudRun(f *c10BudFixture, c *c10BudCase) (milli int64, ps string) {
 	// what the node metric reports: everything that runs on the node (exact in micro-CPUs, then one conversion)
 	nodeUsage := c10f(c.Sys + c.LS + c.LSR + c.NoLabel + c.BE + c.KubeBE + c.HostLS + c.HostBE)
 	r := &CPUSuppress{}
-	ps = mc.Guard(func() {
+	ps = c10Guard(func() {
 		q := r.calculateBESuppressCPU(node, nodeUsage, podMetrics, f.pods, hostApps, hostMetrics, c.Thr, c.Min)
 		milli = q.MilliValue()
 	})
